@@ -68,3 +68,74 @@ Print Assumptions C03_transaction_answer_has_requested_signature.
 Print Assumptions C03_absent_signature_never_answered.
 Print Assumptions C03_cid_fetch_returns_only_that_cids_bytes.
 Print Assumptions C03_without_key_confirmation_refuted.
+
+(* ================= THE CODE ITSELF: parseNodeFromSection (epoch.go) — the CID-checked extraction of an object from
+   a CAR section, the last step of every fetch by CID on the local-file and on the ReaderAt path — translated from the
+   Go source on every check (Generated/GoLiteC03.v; DESIGN.md section 10a) with encoding/binary.Uvarint, go-cid's
+   CidFromReader and Cid.Equals as oracles (Codec.uvarint_dec, cid_parse, byte equality):
+   - under go-car's section-size limit it IS Car.parse_node — the function get_node_by_cid above is made of;
+   - a success means the CID stored in the section is the wanted one (never the bytes of another CID);
+   - with a nil CID (the address-index fetcher) nothing is compared: the bytes after whatever CID is there. *)
+Require YF.GoLite YF.Generated.GoLiteC03 YF.GoLiteC03_Parse.
+Import ZArith String.
+
+Theorem C03_translated_parseNodeFromSection_is_parse_node :
+  forall (cid_parse : list N -> option (list N * nat)),
+  (forall r c k, cid_parse r = Some (c, k) -> k <= List.length r) ->
+  forall fuel (sec wanted : list N),
+  (Z.of_nat (List.length sec) < 4611686018427387904)%Z ->
+  (forall l n, uvarint_dec sec = Some (l, n) -> (l <= 33554432)%N) ->
+  match parse_node cid_parse sec wanted with
+  | Some d => GoLite.call GoLiteC03.prog (GoLiteC03_Parse.ext_car cid_parse) fuel "parseNodeFromSection"%string
+                [GoLite.VInts (map Z.of_N sec); GoLiteC03_Parse.cidv wanted]
+              = GoLite.RRet (GoLite.VTuple [GoLite.VInts (map Z.of_N d); GoLite.VNil])
+  | None => exists e, GoLite.call GoLiteC03.prog (GoLiteC03_Parse.ext_car cid_parse) fuel "parseNodeFromSection"%string
+                [GoLite.VInts (map Z.of_N sec); GoLiteC03_Parse.cidv wanted]
+              = GoLite.RRet (GoLite.VTuple [GoLite.VInts []; GoLite.VErr e])
+  end.
+Proof. exact (fun cp H => GoLiteC03_Parse.parse_is_parse_node GoLiteC03.prog GoLiteC03.prog_parseNodeFromSection cp H). Qed.
+
+Theorem C03_translated_parseNodeFromSection_success_means_same_cid :
+  forall (cid_parse : list N -> option (list N * nat)),
+  (forall r c k, cid_parse r = Some (c, k) -> k <= List.length r) ->
+  forall fuel (sec wanted : list N) out,
+  (Z.of_nat (List.length sec) < 4611686018427387904)%Z ->
+  GoLite.call GoLiteC03.prog (GoLiteC03_Parse.ext_car cid_parse) fuel "parseNodeFromSection"%string
+    [GoLite.VInts (map Z.of_N sec); GoLiteC03_Parse.cidv wanted] = GoLite.RRet (GoLite.VTuple [GoLite.VInts out; GoLite.VNil]) ->
+  exists l n k, uvarint_dec sec = Some (l, n) /\ cid_parse (skipn n sec) = Some (wanted, k) /\
+                out = map Z.of_N (skipn k (skipn n sec)).
+Proof. exact (fun cp H => GoLiteC03_Parse.parse_success_means_same_cid GoLiteC03.prog GoLiteC03.prog_parseNodeFromSection cp H). Qed.
+
+Theorem C03_translated_parseNodeFromSection_nil_cid_compares_nothing :
+  forall (cid_parse : list N -> option (list N * nat)),
+  (forall r c k, cid_parse r = Some (c, k) -> k <= List.length r) ->
+  forall fuel (sec : list N),
+  (Z.of_nat (List.length sec) < 4611686018427387904)%Z ->
+  GoLite.call GoLiteC03.prog (GoLiteC03_Parse.ext_car cid_parse) fuel "parseNodeFromSection"%string
+    [GoLite.VInts (map Z.of_N sec); GoLite.VNil] =
+  match uvarint_dec sec with
+  | None => GoLite.RRet (GoLite.VTuple [GoLite.VInts []; GoLite.VErr "fmt.Errorf"%string])
+  | Some (l, n) =>
+      if (33554432 <? l)%N then GoLite.RRet (GoLite.VTuple [GoLite.VInts []; GoLite.VErr "errors.New"%string])
+      else match cid_parse (skipn n sec) with
+           | None => GoLite.RRet (GoLite.VTuple [GoLite.VInts []; GoLite.VErr "%w cid"%string])
+           | Some (c, k) => GoLite.RRet (GoLite.VTuple [GoLite.VInts (map Z.of_N (skipn k (skipn n sec))); GoLite.VNil])
+           end
+  end.
+Proof. exact (fun cp H => GoLiteC03_Parse.parse_without_wanted GoLiteC03.prog GoLiteC03.prog_parseNodeFromSection cp H). Qed.
+
+(* the translated function RUNS (CIDs of 2 bytes for the example): right CID -> the data; another CID -> an error *)
+Example C03_translated_parseNodeFromSection_runs :
+  let cp := fun (r : list N) => match r with a :: b :: _ => Some ([a; b], 2) | _ => None end in
+  let sec := [5; 1; 113; 10; 20; 30]%N in
+  GoLite.call GoLiteC03.prog (GoLiteC03_Parse.ext_car cp) 0 "parseNodeFromSection"%string
+    [GoLite.VInts (map Z.of_N sec); GoLiteC03_Parse.cidv [1; 113]%N]
+  = GoLite.RRet (GoLite.VTuple [GoLite.VInts [10; 20; 30]%Z; GoLite.VNil]) /\
+  GoLite.call GoLiteC03.prog (GoLiteC03_Parse.ext_car cp) 0 "parseNodeFromSection"%string
+    [GoLite.VInts (map Z.of_N sec); GoLiteC03_Parse.cidv [1; 85]%N]
+  = GoLite.RRet (GoLite.VTuple [GoLite.VInts []; GoLite.VErr "fmt.Errorf"%string]).
+Proof. vm_compute. split; reflexivity. Qed.
+
+Print Assumptions C03_translated_parseNodeFromSection_is_parse_node.
+Print Assumptions C03_translated_parseNodeFromSection_success_means_same_cid.
+Print Assumptions C03_translated_parseNodeFromSection_nil_cid_compares_nothing.
